@@ -100,6 +100,24 @@ for wname, wfn, need in WRAPPERS:
             except Exception as e:  # noqa
                 continue
             cases.append((wname, need, kind, depth, bad, good))
+# qualified names (protocol 4+): a dotted name whose first component is allow-listed names an attribute chain that is itself in no list
+def dotted_payload():
+    for mod in ("collections", "builtins", "numpy", "torch"):
+        for nm in sorted(ml.ML_ALLOWLIST.get(mod, [])):
+            if f"{nm}.__name__" not in ml.ML_ALLOWLIST.get(mod, []):
+                m, a = mod.encode(), f"{nm}.__name__".encode()
+                return f"{mod}.{nm}.__name__", b"\x80\x04\x8c" + bytes([len(m)]) + m + b"\x8c" + bytes([len(a)]) + a + b"\x93."
+    return None, None
+
+
+dn, dp = dotted_payload()
+if dp is not None:
+    for wname, wfn, need in WRAPPERS:
+        for depth in range(0, 3):
+            data = dp
+            for _ in range(depth):
+                data = pickle.dumps(Via(wfn, data))
+            cases.append((wname, need, f"dotted-name {dn}", depth, data, None))
 for wname, need, kind, depth, bad, good in cases:
     for adds in ADDITION_SETS:
         hook.remove_hook()
@@ -124,5 +142,9 @@ for wname, need, kind, depth, bad, good in cases:
                                   "what": "the load was not aborted with the unsafe-file error", "outcome": outcome})
         finally:
             hook.remove_hook()
+groups = {}
+for f in fails:
+    groups.setdefault((f["through"], f["payload"]), []).append(f)
+fails_out = [f for g in groups.values() for f in g[:4]]          # every (wrapper, payload kind) that fails is represented in the report
 print(json.dumps({"bounded": True, "cases": len(cases), "runs": n, "torch": getattr(torch, "__version__", None), "wrappers": [w[0] for w in WRAPPERS],
-                  "n_failures": len(fails), "failures": fails[:60]}))
+                  "n_failures": len(fails), "failures": fails_out[:120]}))
